@@ -393,5 +393,11 @@ def run(ctx: core.Ctx) -> int:
     from . import c15 as _c15pp
     ctx.rule("PY-PURE", "no module-level / class-level mutable state shared between filters (shared with C01)")
     _c15pp.gen_pure(ctx, {"python": "py/formak/python.py", "common": "py/formak/common.py"}, rule="PY-PURE", floor=40)
+    # every generated C++ expression (noise tables, Jacobians, models) goes through cpp.BasicBlock: its temporaries protocol, the CSE gate and the trusted
+    # sympy signatures (shared with C02 / C08)
+    from .. import tmprules as _tmpcpp
+    for _rid, _t in (("TMP-3", "cpp.BasicBlock temporaries protocol"), ("TMP-4", "CSE flag gates only cse()/simplify()"), ("TRUST-SIG", "trusted sympy call signatures")):
+        ctx.rule(_rid, _t)
+    _tmpcpp.check_cpp_block(ctx, ctx.parse("py/formak/cpp.py"))
     return core.finish(ctx, explanation="dataflow queries on the validity gate + E3 congruence form of the prediction covariance "
                                         "(structural, necessary clauses only)", **META)
